@@ -4,7 +4,7 @@
 WT=$1; SD=$2; PKG=$3; DEMO=$4; PAT=$5; TESTPKGS=$6
 export GOFLAGS=-mod=mod GOPROXY=off
 cd $WT || exit 9
-git checkout -q -- . && git clean -fdq
+git checkout -q -- . && git clean -fdq -e SEED_OUT -e SEED_OUT
 git apply $SD/patch.diff || { echo "RESULT apply-failed"; exit 1; }
 go build ./... || { echo "RESULT build-failed"; exit 1; }
 if go test -vet=off -count=1 -timeout 15m $TESTPKGS > /tmp/confirm.$$.log 2>&1; then T=pass; else T=$(grep -c '^--- FAIL' /tmp/confirm.$$.log)" failing: "$(grep '^--- FAIL' /tmp/confirm.$$.log | tr '\n' ' '); fi
@@ -12,6 +12,6 @@ cp $SD/$DEMO $PKG/zz_seed_demo_test.go
 if go test -vet=off -count=1 -timeout 10m -run "$PAT" ./$PKG/ > /tmp/confirm.$$.d1 2>&1; then D1=PASS; else D1=FAIL; fi
 git checkout -q -- . 
 if go test -vet=off -count=1 -timeout 10m -run "$PAT" ./$PKG/ > /tmp/confirm.$$.d2 2>&1; then D2=PASS; else D2=FAIL; fi
-rm -f $PKG/zz_seed_demo_test.go; git clean -fdq
+rm -f $PKG/zz_seed_demo_test.go; git clean -fdq -e SEED_OUT -e SEED_OUT
 echo "RESULT seed=$SD existing_tests=[$T] demo_with_patch=$D1 demo_without_patch=$D2"
 rm -f /tmp/confirm.$$.*
